@@ -8,6 +8,7 @@ CONSTANTS
   LogLocalRatio = 1
   MaxOff = 0
   MaxSpecs = 0
+  ImmixBlockLog = 15
   LocalBaseRule = "after_last_core_global"
   OffsetRule = "offset_after"
 INVARIANTS
